@@ -109,7 +109,9 @@ def e2e_cases(rng, ctx):
         pairs.append((n, m))
     for (n, m) in pairs:
         rep = '~%d' % n if n == m and rng.random() < 0.7 else '~%d..%d' % (n, m)
-        kind = rng.choice(['term', 'rule', 'group', 'template', 'interm'])
+        kind = rng.choice(['term', 'rule', 'group', 'template', 'interm', 'altgroup', 'altgroup'])
+        if kind == 'altgroup' and 6 < m < 50:
+            kind = 'group'     # lark distributes the alternation over all copies: 2^m alternatives in the unfactored scheme
         if kind == 'term':
             g = 'start: X%s\nX: "x"\n' % rep
             unit, per = 'x', 1
@@ -119,6 +121,10 @@ def e2e_cases(rng, ctx):
         elif kind == 'group':
             g = 'start: (X Y)%s\nX: "x"\nY: "y"\n' % rep
             unit, per = 'xy', 2
+        elif kind == 'altgroup':
+            # a group containing an alternation: every occurrence may pick its own alternative
+            g = 'start: (X | Y)%s\nX: "x"\nY: "y"\n' % rep
+            unit, per = 'xy', 'mix'
         elif kind == 'template':
             g = 'start: _rep{X}\n_rep{t}: t%s\nX: "x"\n' % rep
             unit, per = 'x', 1
@@ -157,7 +163,11 @@ def run_e2e(ctx, g, unit, per, n, m, kind, parsers=('earley', 'lalr')):
                           'constructing the parser failed: %r' % (ex,), key=None)
             return
         for k in ks:
-            text = unit * k + ('!' if per is None else '')
+            if per == 'mix':
+                # k occurrences, each freely x or y (mixed: different alternatives in different occurrences)
+                text = ''.join('xy'[(i * 7 + k) % 3 % 2] for i in range(k))
+            else:
+                text = unit * k + ('!' if per is None else '')
             expect = (n <= k) and (m is None or k <= m)
             try:
                 tree = p.parse(text)
@@ -169,6 +179,9 @@ def run_e2e(ctx, g, unit, per, n, m, kind, parsers=('earley', 'lalr')):
             bad = None
             if got != expect:
                 bad = 'k=%d occurrences %s but bounds are %s..%s' % (k, 'accepted' if got else 'rejected', n, m)
+            elif got and per == 'mix':
+                if [str(c) for c in tree.children] != list(text):
+                    bad = 'k=%d: children %s are not the %d occurrences in order' % (k, [str(c) for c in tree.children][:8], k)
             elif got and per is not None:
                 ch = tree.children
                 names = [getattr(c, 'data', None) or getattr(c, 'type', None) for c in ch]
